@@ -210,8 +210,9 @@ def expand_item(repo, relfile, selector, body, tmpl_name, tmpl_line, opts):
 
     lo, hi = it.start, it.end
     # ---- T1 visibility
-    for mm in re.finditer(r"\bpub\b(\s*\([^)]*\))?\s*", m[lo:hi]):
-        add(lo + mm.start(), lo + mm.end(), "", None, "T1", "visibility removed")
+    if not any(b[0] == "keep-pub" for b in body):
+        for mm in re.finditer(r"\bpub\b(\s*\([^)]*\))?\s*", m[lo:hi]):
+            add(lo + mm.start(), lo + mm.end(), "", None, "T1", "visibility removed")
     # ---- T4 derive(Clone)
     clone_needed = False
     if it.kind in ("struct", "enum"):
@@ -370,6 +371,49 @@ def expand_item(repo, relfile, selector, body, tmpl_name, tmpl_line, opts):
                     raise LostAnchor("%s: loop %d is not a for loop" % (selector, n))
                 add(s + mi.end(), s + mi.end(), "%s: " % itname, ("repo", relfile, line_of(src, s)), "T7i",
                     "ghost iterator of the for loop named `%s`" % itname)
+        elif d == "find-map":
+            # T12: a tail expression `E.iter().find_map(|x| B)` (E an owned Vec) becomes the loop that find_map is:
+            #   { let <i>_v = E; let mut <i>: usize = 0;
+            #     while <i> < <i>_v.len() <invariant from the template> { let x = &<i>_v[<i>]; let <i>_o = B;
+            #       if <i>_o.is_some() { return <i>_o; } <i> += 1; }  None }
+            n, iv = arg
+            occ = [mm for mm in re.finditer(r"\.\s*iter\s*\(\s*\)\s*\.\s*find_map\s*\(\s*\|\s*([A-Za-z_][A-Za-z0-9_]*)\s*\|", m[fp.body_open:fp.body_close])]
+            if n < 1 or n > len(occ):
+                raise LostAnchor("%s: find-map %d not found (%d occurrences of `.iter().find_map(|x|`)" % (selector, n, len(occ)))
+            mm = occ[n - 1]
+            dot = fp.body_open + mm.start()
+            par = m.index("(", fp.body_open + mm.end() - len(mm.group(0)) + mm.group(0).index("find_map"))
+            close = rs.match_close(m, par)
+            k = close + 1
+            while k < fp.body_close and m[k].isspace():
+                k += 1
+            if k != fp.body_close:
+                raise LostAnchor("%s: find-map %d is not the tail expression of the function" % (selector, n))
+            s0 = dot
+            depth = 0
+            while s0 > fp.body_open + 1:
+                c = m[s0 - 1]
+                if c in ")]}":
+                    depth += 1
+                    if c == "}" and depth == 1:
+                        break
+                elif c in "([{":
+                    if depth == 0:
+                        break
+                    depth -= 1
+                elif c == ";" and depth == 0:
+                    break
+                s0 -= 1
+            while s0 < dot and m[s0].isspace():
+                s0 += 1
+            recv = _norm(src[s0:dot])
+            x_ = mm.group(1)
+            inner = src[fp.body_open + mm.end():close].strip()
+            rep = ("{ let %s_v = %s; let mut %s: usize = 0;\n        while %s < %s_v.len()\n%s\n        { let %s = &%s_v[%s]; let %s_o = %s;"
+                   " if %s_o.is_some() { return %s_o; } %s += 1; }\n        None }"
+                   % (iv, recv, iv, iv, iv, text, x_, iv, iv, iv, inner, iv, iv, iv))
+            add(s0, close + 1, rep, ("repo", relfile, line_of(src, s0)), "T12",
+                "tail `%s.iter().find_map(|%s| ..)` -> the index loop that find_map is (first Some returned)" % (recv, x_))
         elif d == "noop-closure":
             pass
         elif d == "closure":
@@ -384,6 +428,8 @@ def expand_item(repo, relfile, selector, body, tmpl_name, tmpl_line, opts):
                 add(k, k + len(chead), cnew, ("repo", relfile, line_of(src, k)), "T2c",
                     "closure `%s` gets typed binders and a contract" % chead)
                 pos0 = k + len(chead)
+        elif d == "keep-pub":
+            pass
         elif d == "attr":
             # a verifier attribute in front of the item (specification only)
             add(it.head, it.head, arg + "\n", origin, None)
@@ -391,7 +437,8 @@ def expand_item(repo, relfile, selector, body, tmpl_name, tmpl_line, opts):
             a_, b_ = arg
             for mm in re.finditer(r"\b%s\b" % re.escape(a_), m[lo:hi]):
                 add(lo + mm.start(), lo + mm.end(), b_, ("repo", relfile, line_of(src, lo + mm.start())), "T10",
-                    "identifier %s renamed to %s (name clash in the single-file unit)" % (a_, b_))
+                    ("identifier %s renamed to %s (name clash in the single-file unit)" % (a_, b_)) if "::" not in a_ else
+                    ("call path %s replaced by %s (trusted specification of a derived impl)" % (a_, b_)))
         elif d == "drop-arm":
             if fp is None:
                 raise LostAnchor("%s: drop-arm on non-fn" % selector)
@@ -602,6 +649,12 @@ def parse_template(path):
                             continue
                         cur = (d2, (int(t.group(1)), t.group(2), t.group(3)), [], i + 1)
                         body.append(cur)
+                    elif d2 == "find-map":
+                        t = re.match(r"(\d+)\s+index=(\w+)\s*$", a2)
+                        if not t:
+                            raise LostAnchor("%s:%d: find-map directive needs `<n> index=<name>`" % (path, i + 1))
+                        cur = (d2, (int(t.group(1)), t.group(2)), [], i + 1)
+                        body.append(cur)
                     elif d2 == "closure":
                         t = re.match(r"`(.*)`\s*=>\s*`(.*)`\s*$", a2)
                         if not t:
@@ -611,8 +664,14 @@ def parse_template(path):
                     elif d2 == "attr":
                         body.append((d2, a2, [], i + 1))
                         cur = None
+                    elif d2 == "keep-pub":
+                        # the item keeps its `pub` markers (needed when a pub trait's spec impl mentions its fields)
+                        body.append((d2, None, [], i + 1))
+                        cur = None
                     elif d2 == "rename":
-                        t = re.match(r"(\w+)\s*=>\s*(\w+)\s*$", a2)
+                        t = re.match(r"([\w:]+)\s*=>\s*([\w:]+)\s*$", a2)
+                        if not t:
+                            raise LostAnchor("%s:%d: rename directive needs `A => B` (identifiers or paths)" % (path, i + 1))
                         body.append((d2, (t.group(1), t.group(2)), [], i + 1))
                         cur = None
                     elif d2 == "drop-arm":
@@ -633,7 +692,7 @@ def parse_template(path):
                         closed = True
                         break
                     i += 1
-            if not closed and any(b[0] in ("spec", "before", "after", "loop", "start") for b in body):
+            if not closed and any(b[0] in ("spec", "before", "after", "loop", "start", "find-map") for b in body):
                 raise LostAnchor("%s:%d: item block with splices needs //@ end" % (path, start_line))
             nodes.append(("item", start_line, relfile, selector, body))
         else:
